@@ -169,7 +169,8 @@ func parseCase(line string) (*caseT, bool) {
 func runTicker(c *caseT) (string, error) {
 	out := []string{"tr=" + absNs(c.start.Truncate(c.i))}
 	mock := clock.NewMock(c.start)
-	ctx := clock.Context(context.Background(), mock)
+	ctx, cancelCtx := context.WithCancel(clock.Context(context.Background(), mock))
+	defer cancelCtx()
 	at := verifhooks.NewAlignedTickerWithContext(ctx, c.i, c.off)
 	defer func() {
 		at.Stop()
@@ -206,6 +207,17 @@ func runTicker(c *caseT) (string, error) {
 	default:
 		out = append(out, "left=-")
 	}
+	// the context the ticker was created with ends (shutdown): the clock has not moved, so nothing may come out of the
+	// channel any more - a value now (e.g. the zero time of a closed channel) would be taken for a tick by the flusher
+	cancelCtx()
+	for t0 := time.Now(); time.Since(t0) < 2*time.Millisecond; runtime.Gosched() {
+		select {
+		case v := <-at.C:
+			out = append(out, "after-cancel="+absNs(v))
+			return strings.Join(out, " "), nil
+		default:
+		}
+	}
 	return strings.Join(out, " "), nil
 }
 
@@ -236,12 +248,30 @@ func (p *recProc) Process(ctx context.Context, fn statsd.DispatcherProcessFunc) 
 	return func() {}
 }
 
+// scriptBackend answers every flush at once; whether with an error depends on the case (never / the first flush only /
+// always): what the backends report must not change when the next flush comes or what elapsed time it is given
+type scriptBackend struct {
+	mode  int64
+	calls int64
+}
+
+func (b *scriptBackend) Name() string                                           { return "script" }
+func (b *scriptBackend) SendEvent(ctx context.Context, e *gostatsd.Event) error { return nil }
+func (b *scriptBackend) SendMetricsAsync(ctx context.Context, mm *gostatsd.MetricMap, cb gostatsd.SendCallback) {
+	n := atomic.AddInt64(&b.calls, 1)
+	if b.mode == 0 || (b.mode == 1 && n == 1) {
+		cb([]error{fmt.Errorf("scripted backend failure")})
+		return
+	}
+	cb(nil)
+}
+
 func runFlusher(c *caseT) (string, error) {
 	out := []string{"tr=" + absNs(c.start.Truncate(c.i))}
 	mock := clock.NewMock(c.start)
 	ctx, cancel := context.WithCancel(clock.Context(context.Background(), mock))
 	proc := &recProc{mock: mock, events: make(chan string, 64), release: make(chan struct{})}
-	fl := statsd.NewMetricFlusher(c.i, c.off, true, proc, nil)
+	fl := statsd.NewMetricFlusher(c.i, c.off, true, proc, []gostatsd.Backend{&scriptBackend{mode: ((c.start.Unix() % 3) + 3) % 3}})
 	exited := make(chan struct{})
 	go func() { fl.Run(ctx); close(exited) }()
 	defer func() {
